@@ -10,7 +10,7 @@ if i >= 0:
     d = d[:i]
 d = d.rstrip() + "\n\n"
 def part(n): return open(os.path.join(V, "tools", n)).read().rstrip() + "\n"
-out = d + part("design_section10_head.md") + part("design_section10_props.md") + part("design_section10_findings.md")
+out = d + part("design_section10_head.md") + part("design_section10_props.md") + part("design_section10_new.md") + part("design_section10_findings.md")
 # seeds table
 rows = []
 for mp in sorted(glob.glob(os.path.join(V, "seeded", "*", "meta.json"))):
@@ -23,10 +23,16 @@ for mp in sorted(glob.glob(os.path.join(V, "seeded", "*", "meta.json"))):
         by = []
         for c in ev["checks"]:
             if c["exit"] == 1:
-                by.append("%s: %s" % (c["property"], ", ".join(sorted(set(c.get("new_failures", c["failed_harnesses"])))[:4])))
+                by.append("%s: %s" % (c["property"], ", ".join(sorted(set(c.get("caught_by") or c.get("new_failures") or c.get("failed_harnesses") or []))[:4])))
             elif c["exit"] == 2:
                 by.append("%s: undecided (%s)" % (c["property"], "; ".join(u.split(":")[0].replace("UNDECIDED property=", "") for u in c["undecided"][:2])))
         by = "; ".join(by) or "-"
+        tp = os.path.join(os.path.dirname(mp), "eval_thorough.json")
+        if not ev.get("caught") and os.path.exists(tp):
+            tv = json.load(open(tp))
+            if tv.get("caught"):
+                caught = "thorough only"
+                by = "; ".join("%s: %s" % (c["property"], ", ".join(c.get("caught_by", [])[:4])) for c in tv["checks"] if c["exit"] == 1)
     else:
         caught, by = "not evaluated", "-"
     conf = m.get("confirmed")
@@ -37,9 +43,13 @@ t = ["\n### 10.7 Seeded changes: which checks catch which change\n",
      "for changes that break it, still compile, pass the existing tests and need something specific to manifest. Each",
      "change was confirmed by me in the agent's worktree (`tools/confirm_seed.py`: patch applies, both feature sets build,",
      "demo fails with / passes without the patch, pinned suite 179/179 with the patch) and then evaluated with",
-     "`tools/eval_seed.py`: the patch is applied to a scratch worktree of `/repo`'s HEAD and the **quick** check of the",
-     "property (plus related properties where noted) runs against it. `R-<commit>` rows are the reverse patches of my own",
-     "`fix:` commits (the original defects). \"caught\" = the check exits 1 with a natively replayed VIOLATION.\n",
+     "`tools/eval_seed_fast.py`: the patch is applied to a scratch worktree of `/repo`'s HEAD and every **quick** harness that can",
+     "see a touched file (fragment injected into it, or `functions` naming its module; the whole quick check of the property when",
+     "the change is in `src/lib.rs`) runs against it through `./check <P> --tier quick` restricted with `VERIF_ONLY_IDS` - the same",
+     "code path as the registered command, so a harness that raises a VIOLATION here raises it in the full run. `R-<commit>` rows",
+     "are the reverse patches of my own `fix:` commits (the original defects; evaluated with the full quick check,",
+     "`tools/eval_seed.py`). \"caught\" = the check exits 1 with a natively replayed VIOLATION; \"thorough only\" = only a",
+     "thorough-tier harness raises it.\n",
      "| seed | prop | change | needs to manifest | confirmed | caught (quick) | by |", "|---|---|---|---|---|---|---|"]
 for r in rows:
     t.append("| " + " | ".join(r) + " |")
